@@ -185,12 +185,13 @@ def _extract_gen(ctx):
     broken proof obligation, not a crash)"""
     import pygen_pxpolicy
     if pygen_pxpolicy.extract_policy(ctx):
-        ctx.notes.append("I2N/Extracted/GenPolicy.lean changed: the source of check/get/set/unset/push/pop_states differs "
-                         "from the one the committed file was generated from (getOne/setOne/unsetOne/checkOne/pushOne"
-                         "_matches_source are re-checked)")
+        ctx.notes.append("I2N/Extracted/GenPolicy.lean changed: the source of check/get/set/unset/push/pop_states or "
+                         "_state_check_chain differs from the one the committed file was generated from (getOne/setOne/"
+                         "unsetOne/checkOne/pushOne/popOne/stateCheckChain_matches_source are re-checked)")
     ctx.extra["regenerated"] = ("lean/I2N/Extracted/GenPolicy.lean (one iteration of check_states, get_states, "
-                                "set_states, unset_states, push_states, pop_states via harness/pygen_pxpolicy.py + "
-                                "harness/pygen.py)")
+                                "set_states, unset_states, push_states, pop_states, and _state_check_chain per value "
+                                "of `do`, via harness/pygen_pxpolicy.py + harness/pygen.py; equality theorems "
+                                "getOne/setOne/unsetOne/checkOne/pushOne/popOne/stateCheckChain_matches_source)")
 
 
 def _load_consts():
